@@ -27,14 +27,16 @@ KF_EXP = "C04-ascii-3digit-negative-exponent"
 
 META = dict(
     level="other",
-    stubs=["file object -> symbolic record stream; struct -> field-typed stand-in that records a range obligation for every symbolic integer packed into a fixed-width field",
+    stubs=["layout kernel: the matrix is an object with a symbolic .shape; _write_*_header / _write_*_bigmat of the instance record the call and stop",
+           "file object -> symbolic record stream; struct -> field-typed stand-in that records a range obligation for every symbolic integer packed into a fixed-width field",
            "`x.dtype = float` on symbolic real data -> no-op (AST hook setdtype)", "np.zeros/np.any/np.fromfile -> object-array versions",
            "scipy.sparse.coo_matrix constructor -> raw (I, J, V) triple",
            "CPython '%W.PE' formatting -> exact scaled-integer rounding into symbolic digits (validated in C12)"],
     outside=["bit patterns of struct.pack('d') (CPython)", "complex matrices and scipy.sparse inputs (dtype reinterpretation / scipy internals)", "byte-order handling beyond what the reader checks in C11",
-             "whole ASCII files (the ASCII kernel covers the number field format and its parse-back; layout arithmetic of ASCII files is not claimed)"],
+             "whole ASCII files written by pyYeti (the ASCII kernels cover the number field format and its parse-back and the writers' layout choice by row count; "
+             "the ASCII readers are decided against an independent encoder in C11)"],
     assumptions=["matrices of 3-4 rows x 2 columns with a symbolic sparsity pattern and symbolic real values; 1-2 matrices per file"],
-    reach_required=["dense", "bigmat", "nonbigmat", "two-matrices", "empty-column", "all-zero", "IS-arith", "colstats", "ascii-field", "ascii-3digit"],
+    reach_required=["layout-bigmat", "layout-nonbigmat", "dense", "bigmat", "nonbigmat", "two-matrices", "empty-column", "all-zero", "IS-arith", "colstats", "ascii-field", "ascii-3digit"],
     trusted_base=["z3 5.1", "CPython 3.12", "the digit-string float-format model (see C12)"],
 )
 
@@ -412,13 +414,103 @@ def replay_ascii(p):
         shutil.rmtree(d, ignore_errors=True)
 
 
-REPLAY = {"roundtrip": replay_roundtrip, "IS": replay_is, "colstats": replay_colstats, "ascii": replay_ascii}
+# ---------------------------------------------------------------------------
+# K5: layout agreement - the writers' choice between the non-BIGMAT and the BIGMAT layout, for a symbolic row
+# count, is the layout the readers assume for the NROW such a file announces
+
+def layout_fn(binary):
+    def fn(eng):
+        S.set_engine(eng)
+        cls = K.op4class()
+        w = cls()
+        rows = z3.Int("rows")
+        eng.assume(z3.And(rows >= 1, rows <= 1000000))
+        info = dict(binary=binary)
+
+        class Stop(Exception):
+            pass
+
+        class Shape:                      # all the two writers look at before choosing the layout
+            shape = (S.SymI(rows), 1)
+        called = []
+
+        def big(*a, **k):
+            called.append("bigmat")
+
+        def header(*a, **k):
+            called.append("bigmat" if k.get("bigmat") else "nonbigmat")
+            raise Stop()
+        if binary:
+            w._write_binary_bigmat, w._write_binary_header = big, header
+        else:
+            w._write_ascii_bigmat, w._write_ascii_header = big, header
+        try:
+            try:
+                if binary:
+                    w._write_binary_nonbigmat(None, "a", Shape(), "<", 2)
+                else:
+                    w._write_ascii_nonbigmat(None, "a", Shape(), 9, 2)
+            except Stop:
+                pass
+        except E.Inconclusive:
+            raise
+        except Exception as ex:
+            import traceback
+            return [E.Obl("non-BIGMAT writer raises %r (%s)" % (ex, traceback.format_exc()[-300:]), False, info=info)]
+        obls = [E.Obl("the non-BIGMAT writer either starts its own header or hands over to the BIGMAT writer (%s)" % called, len(called) == 1, info=info)]
+        if len(called) != 1:
+            return obls
+        wrote = called[0]
+        eng.tag("layout-" + wrote)
+        # the header writers announce BIGMAT by a negative NROW
+        nr = S.SymI(rows) if wrote == "nonbigmat" else S.SymI(-rows)
+        try:
+            rdfunc, funcs = w._get_funcs("binary" if binary else "ascii", nr, 0, 2, True, False)
+        except E.Inconclusive:
+            raise
+        except Exception as ex:
+            return obls + [E.Obl("_get_funcs raises %r" % (ex,), False, info=info)]
+        reads = "bigmat" if "bigmat" in rdfunc.__name__ and "nonbigmat" not in rdfunc.__name__ else ("nonbigmat" if "nonbigmat" in rdfunc.__name__ else rdfunc.__name__)
+        obls.append(E.Obl("a file of `rows` rows written in the %s string layout is read with the %s decoder" % (wrote, wrote), reads == wrote, info=info))
+        # the same file read as written by another program: a positive NROW of 65536 or more is BIGMAT for reader and skipper alike (C11's subject)
+        return obls
+    return fn
+
+
+def replay_layout(p):
+    import os
+    import tempfile
+    import shutil
+    import scipy.sparse as sps
+    from pyyeti.nastran import op4
+    rows = int(p["model"].get("rows", 65536) or 65536)
+    A = sps.lil_matrix((rows, 1))
+    A[0, 0] = 1.5
+    A[rows - 1, 0] = -2.5
+    A = A.tocsr()
+    d = tempfile.mkdtemp(prefix="verif-c04-")
+    try:
+        path = os.path.join(d, "t.op4")
+        try:
+            op4.write(path, ["a"], [A], binary=p["binary"], sparse="nonbigmat")
+            names = op4.dir(path, verbose=False)[0]
+            back = op4.read(path, sparse=True)["a"]
+        except Exception as ex:
+            return True, "op4.write(sparse='nonbigmat', binary=%s) of a %d-row matrix followed by dir/read raises %r" % (p["binary"], rows, ex)
+        if back.shape != A.shape or (back != A).nnz:
+            return True, "a %d-row matrix written with sparse='nonbigmat' (binary=%s) is read back differently" % (rows, p["binary"])
+        return False, "%d-row matrix round trip fine" % rows
+    finally:
+        shutil.rmtree(d, ignore_errors=True)
+
+
+REPLAY = {"layout": replay_layout, "roundtrip": replay_roundtrip, "IS": replay_is, "colstats": replay_colstats, "ascii": replay_ascii}
 
 
 def job(kind, *args, split_depth=None, roots=None):
     eng = E.Engine()
     eng.fast_ms = 300
-    fn = dict(roundtrip=roundtrip_fn, IS=is_fn, colstats=colstats_fn)[kind](*args)
+    fn = dict(roundtrip=roundtrip_fn, IS=is_fn, colstats=colstats_fn, layout=layout_fn)[kind](*args)
     res = eng.explore(fn, max_cex=3, roots=roots, split_depth=split_depth)
     res["note"] = "%s %s" % (kind, str(args)[:100])
     if split_depth is not None and res["roots"]:
@@ -468,6 +560,8 @@ def jobs(tier, seed):
     for binary in (True, False):
         for mult in (1, 2):
             out.append(H.Job("IS-%s-%d" % ("bin" if binary else "asc", mult), job, "IS", binary, mult, weight=5))
+    for binary in (True, False):
+        out.append(H.Job("layout-%s" % ("bin" if binary else "asc"), job, "layout", binary, weight=2))
     for n in range(1, (6 if q else 10) + 1):
         out.append(H.Job("colstats-%d" % n, job, "colstats", n, 11, split_depth=6 if n > 5 else None, weight=2 ** n))
     decs = [-300, -101, -100, -99, -10, -1, 0, 1, 7, 98, 99, 100, 101, 300] if q else list(range(-310, 309, 7)) + [-101, -100, -99, 98, 99, 100, 101]
@@ -481,5 +575,5 @@ def extra_coverage(results):
     import pyyeti.nastran.op4 as m
     o = m.OP4
     fns = [o._write_binary, o._write_binary_header, o._write_binary_sparse, o._write_binary_bigmat, o._write_binary_nonbigmat, o._sparse_col_stats,
-           o._get_header_info, o._write_ascii_header, o._write_ascii_nonbigmat, o._loadop4_binary, o._rd_dense_binary, o._rd_bigmat_binary, o._rd_nonbigmat_binary, o.listload, o.dir]
+           o._get_header_info, o._write_ascii_header, o._write_ascii_nonbigmat, o._get_funcs, o._loadop4_binary, o._rd_dense_binary, o._rd_bigmat_binary, o._rd_nonbigmat_binary, o.listload, o.dir]
     return dict(functions_encoded=[H.fn_id(getattr(f, "__func__", f)) for f in fns], ast_hook_hits={"%s:%s" % k: v for k, v in astload.HITS.items()})
